@@ -546,6 +546,33 @@ func runC03(env *Env) {
 			rep.Violate("C03-release", cs, fmt.Sprintf("%d of %d instances went wrong, e.g.: %s", bad, instances, firstBad))
 		}
 	}
+	// long histories of one gateway: the same join activated over and over
+	{
+		type ll struct{ n, m, iters int }
+		runs := []ll{{3, 2, 130}, {5, 3, 70}}
+		if env.Thorough() {
+			runs = []ll{{3, 2, 23000}, {5, 3, 700}, {2, 1, 300}, {4, 3, 300}}
+		}
+		var wg sync.WaitGroup
+		msgs := make([]string, len(runs))
+		for i, r := range runs {
+			wg.Add(1)
+			go func(i int, r ll) {
+				defer wg.Done()
+				msgs[i] = c03LongLoop(r.n, r.m, r.iters)
+			}(i, r)
+		}
+		wg.Wait()
+		for i, r := range runs {
+			cs := fmt.Sprintf("loop around a join %d->%d (and a join %d->1 behind it): %d activations one arrival at a time, then a single arrival", r.n, r.m, r.m, r.iters)
+			rep.Evaluations++
+			rep.Nontrivial++
+			rep.Count("long_loop")
+			if msgs[i] != "" {
+				rep.Violate("C03-release", cs, msgs[i])
+			}
+		}
+	}
 	env.WriteCases(rep, "_engine", "Corr.C03corr", "nat * nat * list (list nat) * list (list nat)", eitems, "c03_engine_mismatches")
 	rep.Exhaustive = true
 	env.WriteReport(rep)
@@ -611,4 +638,96 @@ loop:
 		}
 	}
 	return strings.Join(problems, "; ")
+}
+
+// c03LongLoop drives the loop program through `iters` activations of the N-way join G (and of the M-way join J behind
+// it), one upstream answer at a time, the order rotating: after every answer the next thing the instance does must be
+// the gateway's acknowledgement of that arrival, and only after the N-th one the M downstream requests. After the last
+// activation one more single arrival must leave the gateway closed. Returns what went wrong ("" if nothing).
+func c03LongLoop(N, M, iters int) string {
+	type obs struct {
+		kind, node string
+		task       bpmn.TaskTrace
+	}
+	evs := make(chan obs, 256)
+	defs, err := ParseDefs(c03Prog(N, M).XML(""))
+	must(err)
+	in, err := StartInst(defs, InstOpt{Vars: map[string]any{"again": false}, Raw: func(tr tracing.ITrace) {
+		switch t := tr.(type) {
+		case bpmn.TaskTrace:
+			evs <- obs{"task", nodeId(t.GetActivity().Element()), t}
+		case bpmn.IncomingFlowProcessedTrace:
+			if n := nodeId(t.Node); n == "G" {
+				evs <- obs{"incoming", n, nil}
+			}
+		}
+	}})
+	must(err)
+	defer in.Close()
+	next := func(d time.Duration) *obs {
+		select {
+		case o := <-evs:
+			return &o
+		case <-time.After(d):
+			return nil
+		}
+	}
+	tasks := func(n int, prefix string, where string) (map[string]bpmn.TaskTrace, string) {
+		got := map[string]bpmn.TaskTrace{}
+		for len(got) < n {
+			o := next(tmoStep)
+			if o == nil {
+				return nil, fmt.Sprintf("%s: %d of %d requests of %s* arrived", where, len(got), n, prefix)
+			}
+			if o.kind != "task" || !strings.HasPrefix(o.node, prefix) || got[o.node] != nil {
+				return nil, fmt.Sprintf("%s: expected the requests of %s0..%s%d, saw %s %s", where, prefix, prefix, n-1, o.kind, o.node)
+			}
+			got[o.node] = o.task
+		}
+		return got, ""
+	}
+	for it := 1; it <= iters+1; it++ {
+		where := fmt.Sprintf("activation %d", it)
+		ts, msg := tasks(N, "T", where)
+		if msg != "" {
+			return msg
+		}
+		for k := 0; k < N; k++ {
+			t := fmt.Sprintf("T%d", (k+it)%N)
+			if it == iters+1 && k == 1 {
+				// one arrival only: the gateway stays closed
+				if o := next(300 * time.Millisecond); o != nil {
+					return fmt.Sprintf("%s: one of %d tokens arrived, then: %s %s", where, N, o.kind, o.node)
+				}
+			}
+			ts[t].Do()
+			o := next(tmoStep)
+			if o == nil || o.kind != "incoming" {
+				what := "nothing"
+				if o != nil {
+					what = o.kind + " " + o.node
+				}
+				return fmt.Sprintf("%s: after the answer of %s (arrival %d of %d) expected the gateway's acknowledgement, saw %s", where, t, k+1, N, what)
+			}
+		}
+		us, msg := tasks(M, "U", where)
+		if msg != "" {
+			return msg
+		}
+		for _, u := range us {
+			u.Do()
+		}
+		l, msg := tasks(1, "L", where)
+		if msg != "" {
+			return msg
+		}
+		l["L"].Do(bpmn.DoWithResults(map[string]any{"again": it <= iters}))
+	}
+	if !in.WaitCease(tmoStep) {
+		return "all tasks answered, the instance did not complete"
+	}
+	if o := next(50 * time.Millisecond); o != nil {
+		return fmt.Sprintf("after the completion: %s %s", o.kind, o.node)
+	}
+	return ""
 }
